@@ -26,18 +26,22 @@ SCENARIOS = {
 # exposes a narrow window varies)
 RATES = {"S1": [0.1], "S2": [0.1], "S3": [0.1], "S4": [0.05, 0.5], "S5": [0.05, 0.5], "S6": [0.1],
          "S7": [0.05, 0.25, 0.5]}
-VIOLATION_MARKS = ["C18-MISMATCH", "Data race detected", "deadlock", "Undefined Behavior"]
-INFRA_MARKS = ["unsupported operation", "could not compile", "error: no such command", "is not installed"]
+# aliasing-model complaints and other UB reports that are not data races are recorded as
+# "other reports", never as C18 violations
+VIOLATION_MARKS = ["C18-MISMATCH", "Data race detected", "deadlock"]
+INFRA_MARKS = ["Undefined Behavior", "unsupported operation", "could not compile", "error: no such command", "is not installed"]
 
 
 def run(scenario, lo, hi, timeout, rate=0.1):
     env = dict(os.environ)
     env["CARGO_NET_OFFLINE"] = "true"
-    env["MIRIFLAGS"] = f"-Zmiri-many-seeds={lo}..{hi} -Zmiri-preemption-rate={rate}"
+    # tree borrows: icu_casemap/zerovec (a dependency) trips the experimental Stacked Borrows rules
+    # single-threadedly as soon as the i flag meets a bracket expression; that is not C18's business
+    env["MIRIFLAGS"] = f"-Zmiri-many-seeds={lo}..{hi} -Zmiri-preemption-rate={rate} -Zmiri-tree-borrows"
     env.pop("RUSTFLAGS", None)
     t0 = time.time()
     try:
-        p = subprocess.run(["cargo", "+nightly", "miri", "run", "--offline", "--", scenario],
+        p = subprocess.run(["cargo", "+nightly", "miri", "run", "--offline", "--"] + scenario.split(":"),
                            cwd=SCEN_DIR, env=env, stdout=subprocess.PIPE, stderr=subprocess.STDOUT,
                            timeout=timeout, text=True, errors="replace")
         out, rc, timed_out = p.stdout, p.returncode, False
@@ -65,34 +69,53 @@ def stage(nseeds):
                "scenarios": {}, "violations": [], "infrastructure_failures": []}
     os.makedirs("/verif/target", exist_ok=True)
     os.makedirs("/verif/replays", exist_ok=True)
-    for sc, desc in SCENARIOS.items():
-        entry = {"what": desc, "seeds": 0, "ok": 0, "failing_seeds": [], "wall_s": 0.0,
-                 "preemption_rates": RATES.get(sc, [0.1])}
-        for rate in RATES.get(sc, [0.1]):
-            out, rc, timed_out, wall = run(sc, base, base + nseeds, timeout=2400, rate=rate)
-            ok = len(re.findall(rf"scenario {sc} ok", out))
-            failing = [int(x) for x in re.findall(r"FAILING SEED: (\d+)", out)]
-            entry["seeds"] += nseeds
-            entry["ok"] += ok
-            entry["failing_seeds"] += failing
-            entry["wall_s"] = round(entry["wall_s"] + wall, 1)
-            if timed_out:
-                entry["note"] = "timed out"
-                summary["infrastructure_failures"].append(f"{sc}: timed out after {wall:.0f}s ({ok} seeds finished)")
-            elif failing or (rc != 0 and ok < nseeds):
-                kind, mark = classify(out)
-                if kind == "violation" and failing:
-                    for seed in failing[:3]:
-                        path = f"/verif/replays/C18-miri-{sc}-{seed}.json"
-                        tail = "\n".join(l for l in out.splitlines() if not l.startswith("warning"))[-3000:]
-                        json.dump({"property": "C18", "engine": "miri", "scenario": sc, "seed": seed, "rate": rate,
-                                   "kind": mark, "output_tail": tail}, open(path, "w"), indent=1)
-                        summary["violations"].append({"scenario": sc, "seed": seed, "rate": rate, "kind": mark, "replay": path})
-                else:
-                    tail = out[-1500:]
-                    summary["infrastructure_failures"].append(f"{sc}: rc={rc} kind={kind} {mark}: {tail}")
-                    entry["note"] = "infrastructure failure; not counted"
-        summary["scenarios"][sc] = entry
+    scen = dict(SCENARIOS)
+    ngen = int(os.environ.get("VERIF_MIRI_GENERATED", "24"))
+    for k in range(ngen):
+        scen[f"G:{base % 1000 + k}"] = "generated mini-script (pattern, 2-3 threads, 1-2 operations each, derived from the integer)"
+    # build once, then run several (scenario, rate) jobs side by side: many-seeds uses one core
+    # per seed, and the generated scenarios have few seeds each
+    subprocess.run(["cargo", "+nightly", "miri", "build", "--offline"], cwd=SCEN_DIR,
+                   env={**os.environ, "CARGO_NET_OFFLINE": "true"}, stdout=subprocess.DEVNULL, stderr=subprocess.DEVNULL)
+    jobs = []
+    for sc, desc in scen.items():
+        gen = sc.startswith("G:")
+        rates = [0.05 if int(sc[2:]) % 2 else 0.4] if gen else RATES.get(sc, [0.1])
+        nseeds_sc = max(4, nseeds // 6) if gen else nseeds
+        summary["scenarios"][sc] = {"what": desc, "seeds": 0, "ok": 0, "failing_seeds": [], "wall_s": 0.0,
+                                    "preemption_rates": rates}
+        for rate in rates:
+            jobs.append((sc, rate, nseeds_sc))
+    from concurrent.futures import ThreadPoolExecutor
+    def work(job):
+        sc, rate, n = job
+        return job, run(sc, base, base + n, timeout=2400, rate=rate)
+    with ThreadPoolExecutor(max_workers=int(os.environ.get("VERIF_MIRI_PARALLEL", "3"))) as ex:
+        results = list(ex.map(work, jobs))
+    for (sc, rate, nseeds_sc), (out, rc, timed_out, wall) in results:
+        entry = summary["scenarios"][sc]
+        ok = len(re.findall(rf"scenario {sc.replace(':', '')} ok", out))
+        failing = [int(x) for x in re.findall(r"FAILING SEED: (\d+)", out)]
+        entry["seeds"] += nseeds_sc
+        entry["ok"] += ok
+        entry["failing_seeds"] += failing
+        entry["wall_s"] = round(entry["wall_s"] + wall, 1)
+        if timed_out:
+            entry["note"] = "timed out"
+            summary["infrastructure_failures"].append(f"{sc}: timed out after {wall:.0f}s ({ok} seeds finished)")
+        elif failing or (rc != 0 and ok < nseeds_sc):
+            kind, mark = classify(out)
+            if kind == "violation" and failing:
+                for seed in failing[:3]:
+                    path = f"/verif/replays/C18-miri-{sc.replace(':', '')}-{seed}.json"
+                    tail = "\n".join(l for l in out.splitlines() if not l.startswith("warning"))[-3000:]
+                    json.dump({"property": "C18", "engine": "miri", "scenario": sc, "seed": seed, "rate": rate,
+                               "kind": mark, "output_tail": tail}, open(path, "w"), indent=1)
+                    summary["violations"].append({"scenario": sc, "seed": seed, "rate": rate, "kind": mark, "replay": path})
+            else:
+                tail = out[-1500:]
+                summary["infrastructure_failures"].append(f"{sc}: rc={rc} kind={kind} {mark}: {tail}")
+                entry["note"] = "infrastructure failure; not counted"
     if summary["infrastructure_failures"] and not any(e.get("ok") for e in summary["scenarios"].values()):
         summary["stage"] = "not run (tool failure)"
     json.dump(summary, open(SUMMARY, "w"), indent=1)
